@@ -150,6 +150,16 @@ class Prop(PropBase):
             if bad:
                 out.append(fail('key-not-formatted', f'mapping key {bad[0]!r} should have been formatted to {bad[1]!r}; result keys: {bad[2]!r}'))
         plain = strip_share(case['val'])
+        # members are formatted element-wise: the documented formatting rules (clean-room evaluator of
+        # C08) applied to the whole tree
+        from props.C08 import ref_format, RefUnsupported, RefMissing
+        try:
+            want = ref_format(plain, {k: x for k, x in case['ctx']}, False, 0)
+        except (RefUnsupported, RefMissing):
+            want = None
+        if want is not None and not (res[0] == 'ok' and pv.pv_equal(res[1], want)):
+            out.append(fail('elementwise', f'{plain!r} formatted to {res!r}; formatting each member by the '
+                                           f'documented rules gives {want!r}'))
         if not G.has_brace(plain):
             if not (res[0] == 'ok' and pv.pv_equal(res[1], plain)):
                 out.append(fail('no-brace-identity', f'brace-free value changed: {res!r}'))
